@@ -86,22 +86,26 @@ def apply_model(model, op):
 
 
 def naive_last_offset_model(root_model, chain):
-    """What a view would denote if only the offsets of the LAST range-producing operation were honoured
-    (used only to label a mismatch, never as an oracle)."""
-    m = root_model
+    """What a view would denote if, inside the addressed vector (the root, or the array element selected by a
+    leading element index), only the offsets of the LAST range-producing operation were honoured and the
+    offsets of the enclosing ranges dropped.  Used only to label a mismatch, never as an oracle."""
+    base = root_model
+    ops = list(chain)
+    if ops and ops[0][0] == "ai":
+        base = apply_model(base, ops[0])
+        ops = ops[1:]
     last_range = None
-    for i, op in enumerate(chain):
-        if op[0] in ("sl", "msbn", "lsbn", "msbr", "lsbr"):
+    for i, op in enumerate(ops):
+        if is_range_op(op):
             last_range = i
     if last_range is None:
         return None
-    cur = root_model
-    for i, op in enumerate(chain):
+    cur = base
+    for i, op in enumerate(ops):
         nxt = apply_model(cur, op)
         if i == last_range:
-            # positions relative to the view it was applied to, not to the root
-            rel = apply_model((cur[0], list(range(len(cur[1])))), op)
-            nxt = (nxt[0], rel[1])
+            rel = apply_model((cur[0], list(range(len(cur[1])))), op)[1]
+            nxt = (nxt[0], [base[1][j] for j in rel])
         cur = nxt
     return cur
 
